@@ -149,7 +149,7 @@ func (fsm *stateMachine) onApply(t fsmApply) {
 }
 
 func (fsm *stateMachine) onSnapReq(t fsmSnapReq) {
-	if fsm.index == fsm.snaps.index {
+	if snapIndex, _ := fsm.snaps.latest(); fsm.index == snapIndex {
 		t.reply(ErrNoUpdates)
 		return
 	}
@@ -222,7 +222,8 @@ func (r *Raft) onTakeSnapshot(t takeSnapshot) {
 	// ask the fsm from this goroutine: the request is then ordered right after
 	// the applies queued so far, so the snapshot is taken at r.commitIndex,
 	// the index whose configuration r.configs.Committed is
-	req := fsmSnapReq{task: newTask(), index: r.snaps.index + t.threshold}
+	snapIndex, _ := r.snaps.latest()
+	req := fsmSnapReq{task: newTask(), index: snapIndex + t.threshold}
 	r.fsm.ch <- req
 	go func(config Config) { // tracked by r.snapTakenCh
 		meta, err := doTakeSnapshot(r.fsm, req, config)
